@@ -147,3 +147,21 @@ CORPUS += [
     Mut('c19-benign-clock-prior-chosen-by-the-first-element', 'torchtree/cli/evolution.py', 'create_clock_prior', 'name, params = parse_distribution(arg.clockpr)',
         "name, params = parse_distribution(arg.clockpr)\nif arg.clockpr.split('(')[0] == 'lognormal':\n    params = None", benign=True),
 ]
+CORPUS += [
+    Mut('c19-tree-jacobian-behind-an-unrelated-switch', 'torchtree/cli/hmc.py', '', '    if arg.clock is not None and arg.heights == "ratio":\n        jacobians_list.append("tree")',
+        '    if arg.clock is not None and arg.heights == "ratio" and arg.include_jacobian:\n        jacobians_list.append("tree")', mode='text',
+        expect=[('C19.J', 'build_hmc::jacobian-terms-depend-on-the-model-options-only')]),
+    Mut('c19-benign-tree-jacobian-test-nested', 'torchtree/cli/hmc.py', '', '    if arg.clock is not None and arg.heights == "ratio":\n        jacobians_list.append("tree")',
+        '    if arg.clock is not None:\n        if arg.heights == "ratio":\n            jacobians_list.append("tree")', mode='text', benign=True),
+    Mut('c19-number-options-keep-integers', 'torchtree/cli/argparse_utils.py', '', "    try:\n        return float(arg)\n    except ValueError:\n        if (isinstance(choices",
+        "    try:\n        return int(arg)\n    except ValueError:\n        pass\n    try:\n        return float(arg)\n    except ValueError:\n        if (isinstance(choices", mode='text',
+        expect=[('C19.L', 'cli.evolution::isinstance(arg.brlens_init, float)')]),
+    Mut('c19-benign-number-option-through-a-helper', 'torchtree/cli/argparse_utils.py', '', "    try:\n        return float(arg)\n    except ValueError:\n        if (isinstance(choices",
+        "    try:\n        return float(str(arg).strip())\n    except ValueError:\n        if (isinstance(choices", mode='text', benign=True),
+    Mut('c19-map-joint-built-before-the-alignment', 'torchtree/cli/map.py', '',
+        "    alignment = create_alignment('alignment', 'taxa', arg)\n    json_list.append(alignment)\n\n    if arg.model == 'SRD06':\n        json_list.append(create_site_model_srd06_mus('srd06.mus'))\n\n    joint_dic = create_evolution_joint(taxa, 'alignment', arg)\n",
+        "    joint_dic = create_evolution_joint(taxa, 'alignment', arg)\n    alignment = create_alignment('alignment', 'taxa', arg)\n    json_list.append(alignment)\n\n    if arg.model == 'SRD06':\n        json_list.append(create_site_model_srd06_mus('srd06.mus'))\n\n",
+        mode='text', expect=[('C19.O', 'cli.map.build_optimizer::arg._data_type::first-user-is-emitted-first')]),
+    Mut('c19-horseshoe-on-the-rescaled-rates', 'torchtree/cli/priors.py', '', "        'x': f'{branch_model_id}.rates.unscaled',\n        'parameters': {'tree_model': tree_id},",
+        "        'x': f'{branch_model_id}.rates',\n        'parameters': {'tree_model': tree_id},", mode='text', expect=[('C19.J', 'cli.priors::{}.rates.logdiff::not-stacked-on-a-transform-without-jacobian')]),
+]
